@@ -22,7 +22,7 @@ func init() {
 	Register("C13", &CheckInfo{
 		Fn: checkC13, Level: "model_checking",
 		Rule: "shadow settlement ledger per dispute (fees by payer and source, escrowed stake, rounds) kept in lock-step with every accepted payment; oracles: the stored payer record equals the cumulative amount the payer paid; at the block that executes a dispute the burn and the stake returned to backers equal the amounts implied by the result; then on a throw-away branch every payer and every voter claims (each dispute id of the family, forward and reverse order): each entitled claim succeeds exactly once, a second attempt is rejected, every refund is within one unit of its pro-rata share of the refundable pot, voter rewards do not exceed their pot, and at most dust (one unit per party + stored dust) remains in dispute escrow; failed (underfunded) disputes refund what was paid; evaluated on an exhaustive DFS depth 5 (quick) / 7 (thorough) over {Propose full/half/min/from-bond, AddFee rest/1/from-bond, votes by team x3 / reporter / selector / tipper, new round, Block 1s/1d+1ms/2d+1ms/3d+1ms} after a real report, and on all <=k-deviation histories around the shared skeletons (minting off)",
-		QuickBudget: 8 * time.Minute, ThoroughBudget: 15 * time.Minute,
+		QuickBudget: 10 * time.Minute, ThoroughBudget: 15 * time.Minute,
 	})
 }
 
